@@ -149,6 +149,9 @@ pub fn run(cx: &mut Ctx) {
             let source = (ci + v as usize) % 3;
             let panicking = v % 3 == 2 && *len > 0;
             one_fold(cx, *bound, *len, &ety, source, panicking, &mut rng);
+            if v == 0 && (*len % 3 == 1 || *bound <= 8) {
+                unit_fold(cx, *bound, *len, &mut rng);
+            }
         }
         cx.report.note("bounds", &bound.to_string());
     }
@@ -271,4 +274,56 @@ fn one_fold(cx: &mut Ctx, bound: usize, len: usize, ety: &Ty, source: usize, pan
         cx.report.sample(json!({"program": p.text(), "bound": bound, "length": len}));
     }
     cx.report.count(&format!("source_{}", ["literal", "witness", "computed"][source]), 1);
+}
+
+/// A fold whose accumulator is the unit type: nothing is threaded through, but the step function
+/// must still be applied to every element (it asserts that the element differs from a key), so
+/// the run panics exactly when the list holds the key.
+fn unit_fold(cx: &mut Ctx, bound: usize, len: usize, rng: &mut Rng) {
+    let elems: Vec<Val> = (0..len).map(|_| Val::u(8, rng.below(200) as u128)).collect();
+    let key: u128 = if len > 0 && rng.chance(1, 2) { elems[rng.below(len)].as_u128() } else { 250 };
+    let should_panic = elems.iter().any(|e| e.as_u128() == key);
+    let lty = Ty::list(Ty::U(8), bound);
+    let step = Func {
+        name: "check".into(),
+        params: vec![("elem".into(), Ty::U(8)), ("acc".into(), Ty::unit())],
+        ret: Some(Ty::unit()),
+        body: Expr::block(
+            vec![assert_(Expr::Match(
+                Box::new(Expr::jet("eq_8", vec![Expr::var("elem"), ji(key)])),
+                Box::new([
+                    Arm { pat: MatchPat::True, body: Expr::Bool(false) },
+                    Arm { pat: MatchPat::False, body: Expr::Bool(true) },
+                ]),
+            ))],
+            Some(Expr::var("acc")),
+        ),
+    };
+    let witnesses = vec![("L".to_string(), lty.clone())];
+    let mut primary = WMap::new();
+    primary.insert("L".into(), Val::List(elems.clone(), bound));
+    let stmts = vec![let_("r", Ty::unit(), Expr::call(CallName::Fold("check".into(), bound), vec![Expr::Witness("L".into()), Expr::Tuple(vec![])]))];
+    let prog = Program { items: vec![Item::Func(step), main_fn(stmts)], holes: vec![] };
+    let p = match prepared_from(cx, prog, witnesses, vec![], primary.clone(), WMap::new(), &Style::plain()) {
+        Ok(p) => p,
+        Err(e) => {
+            cx.report.harness_error(json!({"what": e}));
+            return;
+        }
+    };
+    for debug in [false, true] {
+        let Some(built) = build_or_report(cx, &p, debug, true) else { return };
+        let ex = execute(cx, &p, &built, &primary, debug);
+        if !record(cx, &ex.judgement, &p, &primary, debug, &format!("fold-unit:{bound}:{len}")) {
+            continue;
+        }
+        let finished = matches!(ex.judgement, Judgement::Agree { finished: true, .. });
+        if finished == should_panic {
+            cx.report.violation(json!({"kind": "fold", "what": format!("fold with a unit accumulator over {len} of <{bound} elements: closed form says panic = {should_panic}, run finished = {finished}"),
+                "case": case_json(&p, &primary, debug), "signature": format!("fold-unit:{bound}:{len}")}));
+        } else {
+            cx.report.count("unit_accumulator_folds", 1);
+            cx.report.nontrivial.insert(crate::rng::fnv64(format!("unit|{bound}|{len}|{debug}|{key}").as_bytes()));
+        }
+    }
 }
